@@ -5,7 +5,7 @@
 SEED=$1; shift
 ID=$(basename $SEED)
 W=/tmp/eval_$ID
-ulimit -v 16000000
+ulimit -v 42000000
 rm -rf $W/crate; mkdir -p $W/crate
 cp -r /verif/harness/Cargo.toml /verif/harness/Cargo.lock /verif/harness/.cargo /verif/harness/src $W/crate/
 sed -i "s#path = \"/repo\"#path = \"$SEED\"#" $W/crate/Cargo.toml
@@ -16,6 +16,6 @@ for H in "$@"; do
   EXTRA=""
   case $H in h_more::leak*) EXTRA="--cbmc-args --memory-leak-check";; esac
   if [ -n "$FL" ]; then export RUSTFLAGS="$FL"; else unset RUSTFLAGS; fi
-  ( cd $W/crate && CARGO_NET_OFFLINE=true timeout 1500 cargo kani --harness $H --exact --target-dir $W/tgt$i -Z unstable-options -Z stubbing --output-format terse $EXTRA > $W/$H.log 2>&1; echo "== $H: $(grep -a -E 'VERIFICATION:' $W/$H.log) $(grep -a 'cover properties satisfied' $W/$H.log)"; grep -a 'Failed Checks' $W/$H.log | sort | uniq -c ) &
+  ( cd $W/crate && CARGO_NET_OFFLINE=true timeout ${EVAL_TIMEOUT:-1500} cargo kani --harness $H --exact --target-dir $W/tgt$i -Z unstable-options -Z stubbing --output-format terse $EXTRA > $W/$H.log 2>&1; echo "== $H: $(grep -a -E 'VERIFICATION:' $W/$H.log) $(grep -a 'cover properties satisfied' $W/$H.log)"; grep -a 'Failed Checks' $W/$H.log | sort | uniq -c ) &
 done
 wait
